@@ -66,7 +66,8 @@ def plan(tier, seed):
 def floors(tier):
     return {'evaluations': 20000, 'distinct_nontrivial': 3000, 'splits_checked': 50000, 'keyval_checked': 8000,
             'histkeys:sep': 6, 'hist:policy:first': 500, 'hist:policy:concatenate': 500, 'hist:policy:error': 500,
-            'hist:policy:last': 500, 'repeated_keys_seen': 1000}
+            'hist:policy:last': 500, 'repeated_keys_seen': 1000,
+            'lists_with_none_entries': 2000}
 
 
 def setup(rec):
@@ -117,7 +118,8 @@ def check_split(s, nl, sepname, keep_empty, max_split, skip_none, rec):
                 return 'part %d: latex_verbatim() %r is not the source slice %r' % (pi, part.latex_verbatim(), s[a:b])
             spans.append((a, b))
         else:
-            if not keep_empty:
+            holds_placeholders = (not skip_none) and len(list(part)) > 0      # kept None entries are content
+            if not keep_empty and not holds_placeholders:
                 return 'empty part %d returned although keep_empty=False' % pi
             p = part.pos_end if part.pos_end is not None else part.pos
             if not isinstance(p, int) or not (lo <= p <= hi):
@@ -170,7 +172,8 @@ def check_split(s, nl, sepname, keep_empty, max_split, skip_none, rec):
         joined = sep.join(p.latex_verbatim() for p in parts)
         if joined != s[lo:hi]:
             return 'parts joined with the separator give %r, not the list source %r' % (joined, s[lo:hi])
-    if not keep_empty and max_split is None:
+    has_placeholders = (not skip_none) and any(n is None for n in nl)
+    if not keep_empty and max_split is None and not has_placeholders:
         ke = nl.split_at_chars(sep, keep_empty=True, skip_none=skip_none)
         want = [(p.latex_verbatim(), [id(n) for n in live(p) if not n.isNodeType(N.LatexCharsNode)])
                 for p in ke if live(p)]
@@ -333,6 +336,14 @@ def check_case(case, rec):
         return
     if nl is None or nl.pos is None:
         return
+    if case.get('none_at'):
+        # node lists returned by the parser may contain None entries (absent arguments, tolerant mode):
+        # insert some and check that they neither break nor move anything
+        items = list(nl)
+        for i in sorted(case['none_at'], reverse=True):
+            items.insert(min(i, len(items)), None)
+        nl = nl.latex_walker.make_nodelist(items, parsing_state=nl.parsing_state, pos=nl.pos, pos_end=nl.pos_end)
+        rec.monitor('lists_with_none_entries')
     what = case['what']
     if what == 'split':
         err = check_split(s, nl, case['sep'], case['keep_empty'], case['max_split'], case.get('skip_none', True), rec)
@@ -372,12 +383,15 @@ def run_shard(desc, rec):
             protected = any(c in s for c in ('{a,b}', '$e,f$', 'c,d', '%c,=', '1,2'))
             if i % 60 == 0:
                 rec.sample(s)
+            none_at = [rng.randrange(0, 6) for _ in range(rng.randint(1, 2))] if i % 5 == 0 else None
             for sepname in SEPS:
                 for ke in (True, False):
                     for ms in (None, 0, 1, 2, 4):
                         rec.case()
                         case = {'s': s, 'what': 'split', 'sep': sepname, 'keep_empty': ke, 'max_split': ms,
                                 'skip_none': bool(i % 2)}
+                        if none_at:
+                            case['none_at'] = none_at
                         if len(re.findall('[,;=]', tl)) >= 2 and protected:
                             rec.nontrivial((s, sepname, ke, ms))
                         check_case(case, rec)
